@@ -24,7 +24,7 @@ def gen_cases(cfg, out, simulate=None, timeout=3000, name=None):
     return g, n
 
 
-def replay(cases, outprefix, nproc=12, probe=True, timeout=3000, mode=None, config="nightly"):
+def replay(cases, outprefix, nproc=12, probe=True, timeout=3000, mode=None, config="nightly", stderr_unwritable=False):
     """Splits the case file over nproc harness processes; returns the merged report."""
     require_lockable_memory()
     build_shim()
@@ -38,8 +38,10 @@ def replay(cases, outprefix, nproc=12, probe=True, timeout=3000, mode=None, conf
         o = "%s.%d.json" % (outprefix, k)
         if os.path.exists(o):
             os.remove(o)
+        # stderr_unwritable: the process's stderr is /dev/full (every write fails with ENOSPC) - a library that prints a
+        # diagnostic with eprintln! on some path panics there
         procs.append((o, subprocess.Popen([binp, "prot-replay", cases, o, str(k), str(nproc), "1" if probe else "0"],
-                                          env=env, stdout=subprocess.PIPE, stderr=subprocess.STDOUT, text=True)))
+                                          env=env, stdout=subprocess.PIPE, stderr=(open("/dev/full", "w") if stderr_unwritable else subprocess.STDOUT), text=True)))
     merged = {"evaluations": 0, "nfail": 0, "failures": [], "counters": {}, "samples": []}
     for o, p in procs:
         try:
